@@ -262,6 +262,14 @@ def render_stmt(r, st, ind, kind):
         render_body(r, st[3], ind + 1, kind)
         r.emit(ind, "else:")
         render_body(r, st[2], ind + 1, kind)
+    elif k == "tryexc2":
+        # two except clauses: the first one never matches (E2 is never raised), the second one does
+        r.emit(ind, "try:")
+        render_body(r, st[1], ind + 1, kind)
+        r.emit(ind, "except E2:")
+        render_body(r, st[2], ind + 1, kind)
+        r.emit(ind, "except E:")
+        render_body(r, st[3], ind + 1, kind)
     elif k == "tryexcfin":
         r.emit(ind, "try:")
         render_body(r, st[1], ind + 1, kind)
@@ -310,6 +318,10 @@ def render(body, kind, pad=False):
 
 # ------------------------------------------------------------------ runtime
 class E(Exception):
+    pass
+
+
+class E2(Exception):
     pass
 
 
@@ -428,7 +440,7 @@ class AM(object):
         return bool(sw)
 
 
-NS = {"AM": AM, "M": M, "E": E, "trap": trap}
+NS = {"AM": AM, "M": M, "E": E, "E2": E2, "trap": trap}
 
 
 class MC(M):
@@ -661,11 +673,11 @@ def _am_mixed(rt, i):
 
 
 # managers alternate between the plain classes and the ones whose exit functions have unusual names
-NS_MIXED = {"AM": _am_mixed, "M": _m_mixed, "E": E, "trap": trap}
+NS_MIXED = {"AM": _am_mixed, "M": _m_mixed, "E": E, "E2": E2, "trap": trap}
 # every with-block of a program is served by one and the same (re-entrant) manager object per kind
-NS_REENTRANT = {"AM": _am_reentrant, "M": _m_reentrant, "E": E, "trap": trap}
+NS_REENTRANT = {"AM": _am_reentrant, "M": _m_reentrant, "E": E, "E2": E2, "trap": trap}
 # managers that answer an exception with a new exception raised from __exit__/__aexit__ (instead of swallowing it)
-NS_RAISING = {"AM": AMR, "M": MR, "E": E, "trap": trap}
+NS_RAISING = {"AM": AMR, "M": MR, "E": E, "E2": E2, "trap": trap}
 NAMESPACES = {"mixed": NS_MIXED, "reentrant": NS_REENTRANT, "raising": NS_RAISING}
 
 
@@ -742,6 +754,15 @@ def explore_paths(fn, kind, observer, on_path=None):
                 seen.add(alt)
                 stack.append(alt)
     return npaths, nobs
+
+
+def two_clause_programs(g, inner_size=2):
+    """try: raise E / except E2: <A> / except E: <B> for all small bodies A, B that contain a with-block: the exit of a
+    with-block in a LATER except clause, next to an earlier clause that holds blocks of its own"""
+    small = [b for b in programs(g, inner_size, 2) if has(b, WITH_KINDS)]
+    for a in small:
+        for b in small:
+            yield (("tryexc2", (("raise",),), a, b),)
 
 
 def expected_contexts(rt, withs):
